@@ -2,6 +2,7 @@ package main
 
 import (
 	"bufio"
+	"bytes"
 	"crypto/sha1"
 	"encoding/base64"
 	"encoding/json"
@@ -15,6 +16,7 @@ import (
 // one input case: either a TLC-enumerated text with its SrcLines line table, a Mutate.tla mutant,
 // or (replay) raw bytes
 type callCase struct {
+	Bom    int        `json:"bom,omitempty"` // text cases: 1 = a byte order mark precedes the text
 	Text   []string   `json:"text,omitempty"`
 	NLines int        `json:"nlines,omitempty"`
 	Widths []int      `json:"widths,omitempty"`
@@ -39,7 +41,8 @@ type callStats struct {
 }
 
 func recordCall(data []byte, abort bool, specWidths []int) (events []string, feat string, err error) {
-	table := refLineTable(data)
+	// positions exist relative to the text without a leading byte order mark
+	table := refLineTable(withoutBOM(data))
 	if specWidths != nil {
 		if len(specWidths) != len(table) {
 			return nil, "", fmt.Errorf("driver line table disagrees with SrcLines on %q: %v vs %v", data, table, specWidths)
@@ -67,6 +70,9 @@ func recordCall(data []byte, abort bool, specWidths []int) (events []string, fea
 	o := doParse(data, abort)
 	addErrs(o.errs)
 	feats := []string{mode}
+	if bytes.HasPrefix(data, bomBytes) {
+		feats = append(feats, "bom")
+	}
 	if len(o.errs) > 0 {
 		feats = append(feats, "errors")
 	}
@@ -167,6 +173,12 @@ func runCalls(in *bufio.Scanner, out *bufio.Writer, testdata, inputsPath string,
 					data, err = applyChain(getBase(), c.File, c.Muts)
 				default:
 					data, err = concretise(c.Text)
+					if err == nil && bytes.HasPrefix(data, bomBytes) {
+						err = fmt.Errorf("text case starts with a BOM of its own")
+					}
+					if c.Bom == 1 {
+						data = withBOM(data)
+					}
 					specWidths = c.Widths
 					if specWidths == nil {
 						specWidths = []int{}
